@@ -12,7 +12,7 @@ package main
 //     query lists (every pattern set), = min(max(n - c, 0), l) recomputed from the objects GET
 //     retrieves (unfiltered), = Model.CollSel.coll_*_count_at on the model collection (correspondence;
 //     c19_count_cursor_limit, c19_count_equals_ids_page).
-//   - the directed probe of open finding C19-inverted-bounds (SET ... BOUNDS with unordered corners).
+//   - the regression probes of the repaired finding C19-inverted-bounds (SET ... BOUNDS, corners in any order).
 
 import (
 	"fmt"
@@ -407,10 +407,15 @@ func r5Expiry(r *hx.Result, cfg hx.Config, rng *rand.Rand) {
 }
 
 // ---------------------------------------------------------------------------------------------
-// open finding C19-inverted-bounds: SET ... BOUNDS with unordered corners
+// regression for finding C19-inverted-bounds (repaired in /repo by 85e217d): SET ... BOUNDS with the
+// two corners in any order.  Every probe must hold now: the stored rectangle is the one
+// Model/SetBounds.set_bounds_rect builds (correspondence set-bounds-model, observed through
+// GET key id BOUNDS = the stored Min / Max), BOUNDS key is the bounding box of the geometries GET
+// returns and a window inside the object reaches it.  bounds-inverted-rect is no longer an open
+// finding: if it is reported again it is a violation.
 // ---------------------------------------------------------------------------------------------
 
-func r5InvertedBounds(r *hx.Result, cfg hx.Config) {
+func r5InvertedBounds(r *hx.Result, cfg hx.Config, rng *rand.Rand, drv *model.Driver) {
 	s, err := srv.Start(filepath.Join(cfg.Work, "c19inv"), "--appendonly", "no")
 	if err != nil {
 		panic(err)
@@ -418,10 +423,33 @@ func r5InvertedBounds(r *hx.Result, cfg hx.Config) {
 	defer s.Kill()
 	c := s.MustDial()
 	defer c.Close()
+	pf := func(v srv.Value) float64 { f, _ := strconv.ParseFloat(v.Str, 64); return f }
 	probe := func(key string, corners [4]string, sig string) {
 		hist := []string{"SET " + key + " a BOUNDS " + strings.Join(corners[:], " "), "SET " + key + " b POINT 5 5"}
 		c.MustDo("SET", key, "a", "BOUNDS", corners[0], corners[1], corners[2], corners[3])
 		c.MustDo("SET", key, "b", "POINT", "5", "5")
+		cs := map[string]interface{}{"history": hist}
+		r.Count("inverted-bounds/"+key+"/"+strings.Join(corners[:], ","), corners[0] != corners[2] && corners[1] != corners[3])
+		r.Dist("inv:" + sig)
+		// correspondence: the stored rectangle = Model.SetBounds.set_bounds_rect of the four numbers
+		var req = []string{"set_bounds"}
+		for _, t := range corners {
+			f, _ := strconv.ParseFloat(t, 64)
+			req = append(req, bits(f))
+		}
+		mf := strings.Fields(drv.Ask(req...))
+		gb := c.MustDo("GET", key, "a", "BOUNDS")
+		if gb.Kind == '*' && len(gb.Array) == 2 && len(mf) == 5 {
+			// reply [[Min.Y Min.X] [Max.Y Max.X]]; model minx miny maxx maxy
+			impl := []string{bits(pf(gb.Array[0].Array[1])), bits(pf(gb.Array[0].Array[0])), bits(pf(gb.Array[1].Array[1])), bits(pf(gb.Array[1].Array[0]))}
+			if strings.Join(impl, " ") != strings.Join(mf[:4], " ") || mf[4] != "1" {
+				r.Fail(hx.Failure{Kind: "correspondence", Signature: "set-bounds-model",
+					What: fmt.Sprintf("after %q: GET %s a BOUNDS = %s (stored Min / Max), Model.SetBounds.set_bounds_rect gives minx miny maxx maxy (bits) %v ordered=%s", hist[0], key, gb.String(), mf[:4], mf[4]),
+					Case: cs, Impl: strings.Join(impl, " "), Model: strings.Join(mf, " ")})
+			}
+		} else {
+			r.Fail(hx.Failure{Kind: "correspondence", Signature: "set-bounds-model", What: fmt.Sprintf("GET %s a BOUNDS = %s / model reply %v", key, gb.String(), mf), Case: cs})
+		}
 		// the exact box of what GET returns
 		var want [4]float64
 		for i, id := range []string{"a", "b"} {
@@ -438,19 +466,21 @@ func r5InvertedBounds(r *hx.Result, cfg hx.Config) {
 			}
 		}
 		bv := c.MustDo("BOUNDS", key)
-		pf := func(v srv.Value) float64 { f, _ := strconv.ParseFloat(v.Str, 64); return f }
 		var got [4]float64
 		if bv.Kind == '*' && len(bv.Array) == 2 {
 			got = [4]float64{pf(bv.Array[0].Array[0]), pf(bv.Array[0].Array[1]), pf(bv.Array[1].Array[0]), pf(bv.Array[1].Array[1])}
 		}
-		r.Count("inverted-bounds/"+key, true)
-		cs := map[string]interface{}{"history": hist}
 		if got != want {
 			r.Fail(hx.Failure{Kind: "oracle", Signature: sig,
 				What: fmt.Sprintf("after %q: BOUNDS %s = %v, the bounding box of the geometries GET returns is %v", hist, key, got, want), Case: cs})
 		}
-		// a window inside the polygon GET shows for a
-		ids := idsArr(c.MustDo("INTERSECTS", key, "IDS", "BOUNDS", "1", "1", "2", "2"))
+		// a window inside the polygon GET shows for a (the middle of the object's own box)
+		ga, _ := verifapi.NewGeoObj("a", c.MustDo("GET", key, "a").Str, 0)
+		ra := verifapi.Attrs(ga).Rect // minx miny maxx maxy
+		mx, my := (ra[0]+ra[2])/2, (ra[1]+ra[3])/2
+		ff := func(x float64) string { return strconv.FormatFloat(x, 'f', -1, 64) }
+		win := []string{ff(my - (ra[3]-ra[1])/8), ff(mx - (ra[2]-ra[0])/8), ff(my + (ra[3]-ra[1])/8), ff(mx + (ra[2]-ra[0])/8)}
+		ids := idsArr(c.MustDo(append([]string{"INTERSECTS", key, "IDS", "BOUNDS"}, win...)...))
 		found := false
 		for _, id := range ids {
 			found = found || id == "a"
@@ -461,18 +491,45 @@ func r5InvertedBounds(r *hx.Result, cfg hx.Config) {
 				sig2 = "spatial-search-loses"
 			}
 			r.Fail(hx.Failure{Kind: "oracle", Signature: sig2,
-				What: fmt.Sprintf("after %q: INTERSECTS %s IDS BOUNDS 1 1 2 2 = %q does not reach \"a\" although the window lies inside the polygon GET %s a returns", hist, key, ids, key), Case: cs})
+				What: fmt.Sprintf("after %q: INTERSECTS %s IDS BOUNDS %s = %q does not reach \"a\" although the window lies inside the polygon GET %s a returns", hist, key, strings.Join(win, " "), ids, key), Case: cs})
 		}
 	}
-	probe("ordered", [4]string{"0", "0", "10", "10"}, "bounds-wrong")                // control: must hold
-	probe("inverted", [4]string{"10", "10", "0", "0"}, "bounds-inverted-rect")       // open finding C19-inverted-bounds
+	probe("ordered", [4]string{"0", "0", "10", "10"}, "bounds-wrong")
+	probe("inverted", [4]string{"10", "10", "0", "0"}, "bounds-inverted-rect")     // the witness of the repaired finding
 	probe("halfinverted", [4]string{"0", "10", "10", "0"}, "bounds-inverted-rect") // one axis only
+	probe("halfinverted2", [4]string{"10", "0", "0", "10"}, "bounds-inverted-rect")
+	n := 12
+	if cfg.Tier == "thorough" || cfg.Search {
+		n = 300
+	}
+	for i := 0; i < n; i++ {
+		var cs [4]string
+		for j := range cs {
+			if j%2 == 0 {
+				cs[j] = strconv.FormatFloat(float64(rng.Intn(1401)-700)/8, 'f', -1, 64) // latitude
+			} else {
+				cs[j] = strconv.FormatFloat(float64(rng.Intn(2801)-1400)/8, 'f', -1, 64) // longitude
+			}
+		}
+		sig := "bounds-inverted-rect"
+		a0, _ := strconv.ParseFloat(cs[0], 64)
+		a1, _ := strconv.ParseFloat(cs[1], 64)
+		a2, _ := strconv.ParseFloat(cs[2], 64)
+		a3, _ := strconv.ParseFloat(cs[3], 64)
+		if a0 == a2 || a1 == a3 {
+			continue // a degenerate rectangle is dumped as a line: not this probe's subject
+		}
+		if a0 <= a2 && a1 <= a3 {
+			sig = "bounds-wrong"
+		}
+		probe(fmt.Sprintf("rnd%d", i), cs, sig)
+	}
 }
 
 func c19Round5(r *hx.Result, cfg hx.Config, rng *rand.Rand, drv *model.Driver) {
-	r.Rule += " round-5: in-package deadlines of either sign (negative, zero, huge) in the random histories and a directed corpus; SCAN / SEARCH x CURSOR x LIMIT x COUNT against the IDS form, the recomputation from GET and Model.CollSel (non-trivial = 0 < cursor < n and limit < n); black-box SET ... EX with a past deadline, the sweep, and the same id stored again to stay (non-trivial = at least one object that has to stay while another was swept); the directed probe of open finding C19-inverted-bounds."
+	r.Rule += " round-5: in-package deadlines of either sign (negative, zero, huge) in the random histories and a directed corpus; SCAN / SEARCH x CURSOR x LIMIT x COUNT against the IDS form, the recomputation from GET and Model.CollSel (non-trivial = 0 < cursor < n and limit < n); black-box SET ... EX with a past deadline, the sweep, and the same id stored again to stay (non-trivial = at least one object that has to stay while another was swept); the regression probes of the repaired finding C19-inverted-bounds (SET ... BOUNDS with the corners in any order: stored rectangle = Model.SetBounds, BOUNDS = box of what GET returns, a window inside reaches the object)."
 	r5Corpus(r, drv)
 	r5CursorSweep(r, cfg, rng, drv)
 	r5Expiry(r, cfg, rng)
-	r5InvertedBounds(r, cfg)
+	r5InvertedBounds(r, cfg, rng, drv)
 }
